@@ -105,6 +105,12 @@ func (itr *BrokerRowFlatDecoder) DecodeTo(row *BrokerRow) error {
 	itr.resetForNextDecode()
 
 	if itr.size <= 0 || itr.size > maxRowLength {
+		if itr.size > 0 {
+			// NOTE: need skip the data of too large row, else next row is read from the middle of this row,
+			// all following(valid) rows of the request are lost.
+			n, _ := io.CopyN(io.Discard, itr.reader, int64(itr.size))
+			itr.readLen += int(n)
+		}
 		return fmt.Errorf("invalid flat row length: %d", itr.size)
 	}
 	if itr.size > cap(itr.buf) {
